@@ -331,6 +331,13 @@ func (w *lsWalker) stmt(s ast.Stmt, held map[string]bool) map[string]bool {
 			}
 		}
 		for _, r := range s.Rhs {
+			// a guarded MAP copied into a variable is an alias of the live map: what is done through it later (ranging
+			// over it after the lock is released, say) is invisible to a syntactic lock-set analysis — not accepted
+			if sel, ok := r.(*ast.SelectorExpr); ok {
+				if f, tracked := w.fieldName(sel); tracked && f != "loaderEntry.value" && !strings.HasPrefix(f, "unknown") && w.f.name != "init" {
+					w.unknown("alias of the guarded map "+f+" ("+src(s)+")", r.Pos())
+				}
+			}
 			w.scan(r, held)
 		}
 	case *ast.IfStmt:
